@@ -33,7 +33,7 @@ _KNOWN_THREADS = re.compile(
     r"^(np_type_handler|array_type_handler|serialize_shardings|write_metadata_after_commits|async_save|save_finalize"
     r"|asyncio_|Worker_|ScanThread|metadata_store_|ThreadPoolExecutor-|Thread-\d+ \((_target_setting_result|_do_shutdown)\))"
 )
-_pat_meta = re.compile(r"/(\d+)\.orbax-checkpoint-tmp/_CHECKPOINT_METADATA$")
+_pat_meta = re.compile(r"/(\d+)(?:\.orbax-checkpoint-tmp)?/_CHECKPOINT_METADATA$")
 _pat_item = re.compile(r"/(\d+)\.orbax-checkpoint-tmp/default\.orbax-checkpoint-tmp$")
 _pat_step = re.compile(r"/(\d+)\.orbax-checkpoint-tmp$")
 WAIT_S = 45.0
